@@ -74,12 +74,17 @@ def array_strategy(draw, dim, L, h0, allow_tail):
 
 
 @st.composite
-def case_strategy(draw, cls):
+def case_strategy(draw, cls, skip_multi=()):
     dim = draw(st.sampled_from([1, 2, 2, 3, 3]))
     L = draw(st.sampled_from([1.0, 2.0, 4.0]))
     h0 = L * draw(st.sampled_from([0.08, 0.12, 0.2]))
     periodic = draw(st.integers(0, 3)) == 0
     narr = draw(st.sampled_from([1, 1, 2]))
+    if cls in skip_multi:
+        # open C01 finding: this class loses neighbours between different
+        # arrays whatever the order of the particles; skipped by
+        # construction
+        narr = 1
     arrays = [draw(array_strategy(dim, L, h0, not periodic))
               for _ in range(narr)]
     offset = draw(st.sampled_from([0.0, 0.0, 1000.0, -1000.0]))
@@ -184,7 +189,7 @@ def check(case):
     import numpy as np
     from cyarray.carray import LongArray, UIntArray
     labels = []
-    kl = dict(cls=case['cls'])
+    kl = dict(cls=case['cls'], multi_array=len(case['arrays']) > 1)
     fails = []
     try:
         pas, nn = build(case)
@@ -304,17 +309,22 @@ def execute_factory(ctx):
 def plan(ctx):
     n = 300 if ctx['tier'] == 'quick' else 10000
     shards = []
+    skip = [e['match']['component'] for e in ctx.get('known_open', [])
+            if e['match'].get('multi_array')]
     for c in CLASSES:
         for part in range(2):
             shards.append(dict(name='%s-%d' % (c, part), cls=c,
                                component=c, klass=dict(cls=c),
-                               max_examples=n // 2))
+                               skip_multi=skip, max_examples=n // 2))
     return shards
 
 
 def run_shard(spec, ctx):
     stats = Stats()
-    search(case_strategy(spec['cls']), execute_factory(ctx),
+    if spec['cls'] in spec.get('skip_multi', []):
+        stats.label('excluded:known:multi_array')
+    search(case_strategy(spec['cls'], spec.get('skip_multi', [])),
+           execute_factory(ctx),
            derive_seed(ctx.seed, 'C17', spec['name']), spec['max_examples'],
            stats, shrink=True)
     return stats.result()
